@@ -826,10 +826,29 @@ class Interp:
                 out.extend(self.ev(node.body if truth else node.orelse, s))
             return out
         if isinstance(node, ast.BoolOp):
-            # value of and/or: evaluate operands for events; result opaque unless decided
+            # value of `a or b` / `a and b` is one of the operands
+            is_and = isinstance(node.op, ast.And)
             out = []
-            for truth, s in self.ev_cond(node, st):
-                out.append(('val', K(truth), s))
+            pending = [(st, 0)]
+            while pending:
+                s0, i = pending.pop()
+                for kind, v, s1 in self.ev(node.values[i], s0):
+                    if kind == 'raise':
+                        out.append((kind, v, s1))
+                        continue
+                    if i + 1 == len(node.values):
+                        out.append(('val', v, s1))
+                        continue
+                    for truth, s2 in self.truthiness(v, s1, node.values[i]):
+                        if truth != is_and:
+                            # `or` with a true operand / `and` with a false operand: this operand is the value
+                            cur = v
+                            if isinstance(v, Sym):
+                                # the refined copy lives in the state
+                                cur = v.refined(truth=truth) if v.truth is None else v
+                            out.append(('val', cur, s2))
+                        else:
+                            pending.append((s2, i + 1))
             return out
         if isinstance(node, ast.UnaryOp) and isinstance(node.op, ast.Not):
             return [('val', K(not t), s) for t, s in self.ev_cond(node.operand, st)]
